@@ -20,11 +20,16 @@ INTERVAL_KEYS = ('min_cap', 'max_cap', 'extra_costs', 'min_take', 'max_take', 's
                  'consumption_if_on', 'min_load_threshhold', 'min_load_costs')
 
 
-def to_date(x, form='datetime'):
-    """ISO string -> the date object handed to EAO. form in datetime | timestamp | date(if midnight)."""
+def to_date(x, form='datetime', tz=None):
+    """ISO string -> the date object handed to EAO. form in datetime | timestamp | date(if midnight) |
+    aware_utc / aware_other (the same instant as a zone-aware Timestamp in UTC / another zone; needs the grid zone tz)."""
     if x is None:
         return None
     t = pd.Timestamp(x)
+    if form in ('aware_utc', 'aware_other'):
+        if tz is None or t.tzinfo is not None:
+            return t.to_pydatetime()
+        return t.tz_localize(tz).tz_convert('UTC' if form == 'aware_utc' else 'Asia/Kolkata')
     if form == 'timestamp':
         return t
     if form == 'date' and t == t.normalize() and t.tzinfo is None:
@@ -32,12 +37,14 @@ def to_date(x, form='datetime'):
     return t.to_pydatetime()
 
 
-def conv_interval(d, form='datetime', container='list'):
+def conv_interval(d, form='datetime', container='list', tz=None):
     out = {}
+    if form in ('aware_utc', 'aware_other'):
+        container = 'list'
     for k, v in d.items():
         if k in ('start', 'end'):
             if isinstance(v, (list, tuple)):
-                vals = [to_date(x, form) for x in v]
+                vals = [to_date(x, form, tz) for x in v]
                 if container == 'dtindex':
                     vals = pd.DatetimeIndex([pd.Timestamp(x) for x in v])
                 elif container == 'array':
@@ -50,7 +57,7 @@ def conv_interval(d, form='datetime', container='list'):
                     vals = np.array([np.datetime64(t.to_datetime64(), unit if ok else 'ns') for t in ts], dtype='datetime64[%s]' % (unit if ok else 'ns'))
                 out[k] = vals
             else:
-                out[k] = to_date(v, form)
+                out[k] = to_date(v, form, tz)
         else:
             out[k] = copy.deepcopy(v) if not (container == 'array' and isinstance(v, list)) else np.asarray(v, dtype=float)
     return out
@@ -95,9 +102,9 @@ def build_asset(a, built, tz=None):
         if k.startswith('_'):
             continue
         if k in DATE_KEYS:
-            kw[k] = to_date(v, form)
+            kw[k] = to_date(v, form, tz)
         elif k in INTERVAL_KEYS and isinstance(v, dict):
-            kw[k] = conv_interval(v, form, container)
+            kw[k] = conv_interval(v, form, container, tz)
         elif k == 'orders':
             o = {}
             for kk, vv in v.items():
